@@ -11,7 +11,9 @@
        check(c, "recall")           check this.c else recall r()          (policy block only)
        recall                       recall r()                            (policy block only)
        if(c, A, B, els)             if this.c { A } else { B }            (else part iff els)
+       if3(c, c2, <<A, M, B>>)      if this.c { A } else if this.c2 { M } else { B }
        match(n, <<A0, A1, Ad>>)     match this.n { 0 => {A0} 1 => {A1} _ => {Ad} }
+       dassert(c)                   debug_assert(this.c)       panics iff false (policies are compiled in debug mode)
        finish(ops)                  finish { ops }                        (last statement of its block)
 
        stray(op, via)               a finish-only statement (emit/create/delete/finish-function call)
@@ -51,6 +53,8 @@ CONSTANTS MaxStmts,     \* statements per policy block (nested ones count)
           OpsMenu,      \* set of finish-block bodies (sequences of op records)
           RecallMenu,   \* set of recall blocks used when the policy block can recall
           MatchArms,    \* set of blocks allowed as match arms (keeps the enumeration finite and small)
+          ExtraSimple,  \* further simple statements to enumerate (e.g. the two dassert forms)
+          WithElif,     \* enumerate if / else if / else statements (arms from MatchArms)
           StrayBase,    \* base programs into which a misplaced finish-only statement is inserted ({} = none)
           StrayOps,     \* the finish-only statements inserted (op records)
           Enumerate     \* TRUE: Init ranges over the set of all programs within the bounds;
@@ -67,12 +71,13 @@ Simple ==
   \cup {[t |-> "call", c |-> c] : c \in BOOLEAN}
   \cup {[t |-> "check", c |-> c, e |-> e] : c \in BOOLEAN, e \in {"panic", "recall"}}
   \cup {[t |-> "recall"]}
+  \cup ExtraSimple
 
 Finishes == {[t |-> "finish", ops |-> o] : o \in OpsMenu}
 
 RECURSIVE SizeB(_)
 SizeS(s) == IF s.t = "if" THEN 1 + SizeB(s.a) + SizeB(s.b)
-            ELSE IF s.t = "match" THEN 1 + SizeB(s.arms[1]) + SizeB(s.arms[2]) + SizeB(s.arms[3])
+            ELSE IF s.t \in {"match", "if3"} THEN 1 + SizeB(s.arms[1]) + SizeB(s.arms[2]) + SizeB(s.arms[3])
             ELSE 1
 SizeB(b) == IF b = <<>> THEN 0 ELSE SizeS(b[1]) + SizeB(Tail(b))
 
@@ -85,6 +90,11 @@ IfsOver(n, lv) ==
 Matches(n) ==
   {m \in {[t |-> "match", n |-> k, arms |-> <<a0, a1, ad>>] :
              k \in 0..2, a0 \in MatchArms, a1 \in MatchArms, ad \in MatchArms} : SizeS(m) <= n}
+
+Elifs(n) ==
+  IF ~WithElif THEN {}
+  ELSE {m \in {[t |-> "if3", c |-> c, c2 |-> c2, arms |-> <<a, mid, b>>] :
+                 c \in BOOLEAN, c2 \in BOOLEAN, a \in MatchArms, mid \in MatchArms, b \in MatchArms} : SizeS(m) <= n}
 
 (* blocks of size <= n: empty, a lone finish, or a statement of St followed by a block of the
    remaining size (prev[m + 1] = the blocks of size <= m); `finish` only in last position *)
@@ -100,13 +110,13 @@ L0_1 == IF Enumerate /\ ((MaxDepth = 0 /\ MaxStmts >= 1) \/ (MaxDepth > 0 /\ Max
 L0_2 == IF Enumerate /\ ((MaxDepth = 0 /\ MaxStmts >= 2) \/ (MaxDepth > 0 /\ MaxStmts > 2)) THEN Ext(2, Simple, <<L0_0, L0_1>>) ELSE {}
 L0_3 == IF Enumerate /\ ((MaxDepth = 0 /\ MaxStmts >= 3) \/ (MaxDepth > 0 /\ MaxStmts > 3)) THEN Ext(3, Simple, <<L0_0, L0_1, L0_2>>) ELSE {}
 L0_4 == IF Enumerate /\ (MaxDepth = 0 /\ MaxStmts >= 4) THEN Ext(4, Simple, <<L0_0, L0_1, L0_2, L0_3>>) ELSE {}
-St1(n) == Simple \cup IfsOver(n, <<L0_0, L0_1, L0_2, L0_3>>) \cup Matches(n)
+St1(n) == Simple \cup IfsOver(n, <<L0_0, L0_1, L0_2, L0_3>>) \cup Matches(n) \cup Elifs(n)
 L1_0 == {<<>>}
 L1_1 == IF Enumerate /\ ((MaxDepth = 1 /\ MaxStmts >= 1) \/ (MaxDepth > 1 /\ MaxStmts > 1)) THEN Ext(1, Simple, <<L1_0>>) ELSE {}
 L1_2 == IF Enumerate /\ ((MaxDepth = 1 /\ MaxStmts >= 2) \/ (MaxDepth > 1 /\ MaxStmts > 2)) THEN Ext(2, St1(2), <<L1_0, L1_1>>) ELSE {}
 L1_3 == IF Enumerate /\ ((MaxDepth = 1 /\ MaxStmts >= 3) \/ (MaxDepth > 1 /\ MaxStmts > 3)) THEN Ext(3, St1(3), <<L1_0, L1_1, L1_2>>) ELSE {}
 L1_4 == IF Enumerate /\ (MaxDepth = 1 /\ MaxStmts >= 4) THEN Ext(4, St1(4), <<L1_0, L1_1, L1_2, L1_3>>) ELSE {}
-St2(n) == Simple \cup IfsOver(n, <<L1_0, L1_1, L1_2, L1_3>>) \cup Matches(n)
+St2(n) == Simple \cup IfsOver(n, <<L1_0, L1_1, L1_2, L1_3>>) \cup Matches(n) \cup Elifs(n)
 L2_0 == {<<>>}
 L2_1 == IF Enumerate /\ ((MaxDepth = 2 /\ MaxStmts >= 1) \/ (MaxDepth > 2 /\ MaxStmts > 1)) THEN Ext(1, Simple, <<L2_0>>) ELSE {}
 L2_2 == IF Enumerate /\ ((MaxDepth = 2 /\ MaxStmts >= 2) \/ (MaxDepth > 2 /\ MaxStmts > 2)) THEN Ext(2, St2(2), <<L2_0, L2_1>>) ELSE {}
@@ -122,7 +132,7 @@ RECURSIVE CanRecallB(_)
 CanRecallS(s) == \/ s.t = "recall"
                  \/ s.t = "check" /\ s.e = "recall"
                  \/ s.t = "if" /\ (CanRecallB(s.a) \/ CanRecallB(s.b))
-                 \/ s.t = "match" /\ \E i \in 1..3 : CanRecallB(s.arms[i])
+                 \/ s.t \in {"match", "if3"} /\ \E i \in 1..3 : CanRecallB(s.arms[i])
 CanRecallB(b) == \E i \in 1..Len(b) : CanRecallS(b[i])
 
 (* a recall block (from the menu; recall blocks cannot recall) only when the policy block can reach it *)
@@ -136,7 +146,7 @@ RECURSIVE InsB(_, _)
 InsS(s, x) ==
   CASE s.t = "if"    -> {[s EXCEPT !.a = a2] : a2 \in InsB(s.a, x)}
                         \cup {[s EXCEPT !.b = b2, !.els = TRUE] : b2 \in InsB(s.b, x)}
-    [] s.t = "match" -> UNION {{[s EXCEPT !.arms[i] = a2] : a2 \in InsB(s.arms[i], x)} : i \in 1..3}
+    [] s.t \in {"match", "if3"} -> UNION {{[s EXCEPT !.arms[i] = a2] : a2 \in InsB(s.arms[i], x)} : i \in 1..3}
     [] OTHER         -> {}
 InsB(b, x) ==
   {SubSeq(b, 1, i) \o <<x>> \o SubSeq(b, i + 1, Len(b)) :
@@ -178,6 +188,8 @@ ExecS(s, ctx, rb) ==
     [] s.t = "finish" -> Res(IF ctx = "policy" THEN "Normal" ELSE "Check", OpsIo(s.ops, ctx = "recall"), FALSE)
     [] s.t = "if"     -> ExecB(IF s.c THEN s.a ELSE s.b, ctx, rb)
     [] s.t = "match"  -> ExecB(s.arms[s.n + 1], ctx, rb)
+    [] s.t = "if3"    -> ExecB(s.arms[IF s.c THEN 1 ELSE IF s.c2 THEN 2 ELSE 3], ctx, rb)
+    [] s.t = "dassert" -> Res(IF s.c THEN "fall" ELSE "Panic", <<>>, FALSE)
     [] s.t = "stray"  -> Res("fall", OpsIo(<<s.op>>, ctx = "recall"), FALSE)   \* what it would do if it were accepted
 ExecB(b, ctx, rb) ==
   IF b = <<>> THEN Res("fall", <<>>, FALSE)
@@ -206,6 +218,17 @@ CompS(s, ctx, at, rt) ==
          <<[i |-> "ops", ops |-> s.ops]>>
          \o <<[i |-> "exit", r |-> IF ctx = "policy" THEN "Normal" ELSE "Check"]>>
     [] s.t = "stray"  -> <<[i |-> "ops", ops |-> <<s.op>>]>>
+    [] s.t = "dassert" -> <<[i |-> "branch", c |-> s.c, to |-> at + 2], [i |-> "exit", r |-> "Panic"]>>   \* <c>; Branch(+2); Exit(Panic)
+    [] s.t = "if3"    ->                                                    \* per branch: <c>; Not; Branch(next); body; Jump(end); then the fallback
+         LET c1 == CompB(s.arms[1], ctx, at + 1, rt)
+             n1 == at + 1 + Len(c1) + 1                \* second condition
+             c2 == CompB(s.arms[2], ctx, n1 + 1, rt)
+             n2 == n1 + 1 + Len(c2) + 1                \* fallback
+             c3 == CompB(s.arms[3], ctx, n2, rt)
+             end == n2 + Len(c3) IN
+           <<[i |-> "branch", c |-> ~s.c, to |-> n1]>> \o c1 \o <<[i |-> "jump", to |-> end]>>
+           \o <<[i |-> "branch", c |-> ~s.c2, to |-> n2]>> \o c2 \o <<[i |-> "jump", to |-> end]>>
+           \o c3
     [] s.t = "if"     ->                                                    \* <c>; Not; Branch(next); A; Jump(end); next: B; end:
          LET ca == CompB(s.a, ctx, at + 1, rt)
              cb == CompB(s.b, ctx, at + 1 + Len(ca) + 1, rt) IN
@@ -267,11 +290,11 @@ InitFacts == {<<1, 1>>}
    recall statements only in the policy block *)
 RECURSIVE DepthB(_), WfB(_, _)
 DepthS(s) == IF s.t = "if" THEN 1 + (IF DepthB(s.a) > DepthB(s.b) THEN DepthB(s.a) ELSE DepthB(s.b))
-             ELSE IF s.t = "match" THEN 1 ELSE 0
+             ELSE IF s.t \in {"match", "if3"} THEN 1 ELSE 0
 DepthB(b) == IF b = <<>> THEN 0
              ELSE LET x == DepthS(b[1]) y == DepthB(Tail(b)) IN IF x > y THEN x ELSE y
 WfS(s, ctx) == CASE s.t = "if" -> WfB(s.a, ctx) /\ WfB(s.b, ctx) /\ (s.els <=> s.b # <<>>)
-                 [] s.t = "match" -> \A i \in 1..3 : WfB(s.arms[i], ctx)
+                 [] s.t \in {"match", "if3"} -> \A i \in 1..3 : WfB(s.arms[i], ctx)
                  [] s.t = "recall" -> ctx = "policy"
                  [] s.t = "check" -> s.e = "panic" \/ ctx = "policy"
                  [] s.t = "stray" -> FALSE
